@@ -192,8 +192,16 @@ func forMediaType(cfg Config, mt string) []expect {
 		return []expect{{kind: eRefuse, statuses: []int{400, 415}}}
 	}
 	if strings.Contains(mt, "*") {
-		// a literal wildcard sent as the request's media type (only in ambiguous headers): nothing is forced
-		// beyond "no unrelated consumer decodes it"
+		// a wildcard sent as the request's media type is an ordinary, odd media type name: a concrete
+		// consumes entry never admits it. Unless the list admits that very text (an entry equal to it, its
+		// own 'type/*' entry, or '*/*') nothing may run; the refusal status stays lenient (400 or 415).
+		if len(cfg.Consumes) == 0 && cfg.Default == "" {
+			return []expect{{kind: eRefuse, statuses: []int{400, 415, 500}}}
+		}
+		if admit(cfg, mt) == admitNo {
+			return []expect{{kind: eRefuse, statuses: []int{400, 415}}}
+		}
+		// admitted as that odd name: nothing is forced beyond "no unrelated consumer decodes it"
 		var allowed []string
 		for _, k := range registeredKeys(cfg) {
 			if k == mt || (strings.HasSuffix(k, "/*") && entryMatches(k, mt)) {
